@@ -242,6 +242,38 @@ func WaitCh(ch <-chan struct{}, d time.Duration) bool {
 	}
 }
 
+// WaitProgress waits for ch while progress() keeps growing: it gives up only when a whole
+// interval d passes without any growth (a stall), not when a fixed total has elapsed, so a
+// long transfer on a loaded machine is not mistaken for a hang.
+func WaitProgress(ch <-chan struct{}, d time.Duration, progress func() int64) bool {
+	last := progress()
+	for {
+		if WaitCh(ch, d) {
+			return true
+		}
+		cur := progress()
+		if cur <= last {
+			return false
+		}
+		last = cur
+	}
+}
+
+// EventuallyProgress is Eventually with the same stall rule.
+func EventuallyProgress(d time.Duration, progress func() int64, cond func() bool) bool {
+	last := progress()
+	for {
+		if Eventually(d, cond) {
+			return true
+		}
+		cur := progress()
+		if cur <= last {
+			return false
+		}
+		last = cur
+	}
+}
+
 // Eventually polls cond until it is true or d expires.
 func Eventually(d time.Duration, cond func() bool) bool {
 	deadline := time.Now().Add(eff(d))
